@@ -7,7 +7,7 @@ from concurrent.futures import ThreadPoolExecutor
 
 import engine
 import streams
-from common import PY, VERIF
+from common import PY, VERIF, size
 
 THEOREMS = ["LNN.C10_addg_perm",
             "LNN.C10_addg_set",
@@ -37,8 +37,8 @@ def run_seed(args):
 
 
 def run(rep, tier, seed):
-    n = 50 if tier == "quick" else 400
-    seeds = [0, 1, 2] if tier == "quick" else list(range(16))
+    n = size(tier, 50, 400)
+    seeds = list(range(16)) if tier == "thorough" else [0, 1, 2]
     progs = [streams.gen_fol_program(seed + 61, k, quant=False, n_ops=(2, 8)) for k in range(n // 2)]
     progs += [streams.gen_fol_program(seed + 67, k, quant=True, n_ops=(2, 8)) for k in range(n - n // 2)]
     tmp = tempfile.mkdtemp(prefix="lnnverif_c10_")
